@@ -719,3 +719,191 @@ mutant("c07-invalid-probe-closes-socket", "C07", "C07-D4", "engine.io/server.go"
 			t.Close()
 			socket.close(ReasonTransportError, nil)
 			socket.onError(wrapInternalError(fmt.Errorf("upgrade failed: invalid packet received: packet type: %d", packet.Type)))""")
+
+# ---------------------------------------------------------------- C14
+mutant("c14-pong-wait-interval", "C14", "C14-D1", "engine.io/server_socket.go",
+       "		case <-time.After(pingTimeout):", "		case <-time.After(pingInterval):")
+mutant("c14-pong-wait-sum", "C14", "C14-D1", "engine.io/server_socket.go",
+       "		case <-time.After(pingTimeout):", "		case <-time.After(pingTimeout + pingInterval):")
+mutant("c14-client-watchdog-timeout-only", "C14", "C14-D1", "engine.io/client_socket.go",
+       "		timeout := s.pingInterval + s.pingTimeout", "		timeout := s.pingTimeout")
+mutant("c14-client-no-pong", "C14", "C14-D2", "engine.io/client_socket.go",
+       """		pong, err := parser.NewPacket(parser.PacketTypePong, false, packet.Data)
+		if err != nil {
+			s.onError(err)
+			return
+		}
+		s.Send(pong)""",
+       """		_ = s.Send""")
+mutant("c14-unbuffered-pongChan", "C14", "C14-D3", "engine.io/server_socket.go",
+       "		pongChan: make(chan struct{}, 1),", "		pongChan: make(chan struct{}),")
+mutant("c14-unbuffered-pingChan", "C14", "C14-D3", "engine.io/client.go",
+       "		pingChan:  make(chan struct{}, 1),", "		pingChan:  make(chan struct{}),")
+mutant("c14-pong-empty-data", "C14", "C14-D2", "engine.io/client_socket.go",
+       "		pong, err := parser.NewPacket(parser.PacketTypePong, false, packet.Data)", "		pong, err := parser.NewPacket(parser.PacketTypePong, false, nil)")
+mutant("c14-announce-seconds", "C14", "C14-D1", "engine.io/server.go",
+       "		PingInterval: int64(s.pingInterval / time.Millisecond),", "		PingInterval: int64(s.pingInterval / time.Second),")
+mutant("c14-ping-before-sleep", "C14", "C14-D1", "engine.io/server_socket.go",
+       """	for {
+		time.Sleep(pingInterval)
+
+		select {
+		case <-s.closeChan:
+			s.debug.Log("pingPong", "`closeChan` was closed")
+			return
+		default:
+		}
+""",
+       """	for {
+		select {
+		case <-s.closeChan:
+			s.debug.Log("pingPong", "`closeChan` was closed")
+			return
+		default:
+		}
+""")
+mutant("c14-timeout-does-not-close", "C14", "C14-D2", "engine.io/client_socket.go",
+       """			s.debug.Log("handleTimeout", "timed out")
+			s.close(ReasonPingTimeout, nil)
+			return""",
+       """			s.debug.Log("handleTimeout", "timed out")
+			if s.TransportName() == "polling" {
+				continue
+			}
+			s.close(ReasonPingTimeout, nil)
+			return""")
+mutant("c14-pong-ignored-when-binary", "C14", "C14-D2", "engine.io/server_socket.go",
+       "	case parser.PacketTypePong:\n		s.onPong()", "	case parser.PacketTypePong:\n		if len(packet.Data) == 0 {\n			s.onPong()\n		}")
+mutant("c14-client-durations-swapped", "C14", "C14-D1", "engine.io/client_socket.go",
+       "		s.pingInterval = hr.GetPingInterval()\n		s.pingTimeout = hr.GetPingTimeout()", "		s.pingInterval = hr.GetPingTimeout()\n		s.pingTimeout = hr.GetPingTimeout()")
+
+# ---------------------------------------------------------------- C17
+mutant("c17-version-check-after-handshake", "C17", "C17-D1", "engine.io/server.go",
+       """	sid := q.Get("sid")
+	if sid == "" {
+		s.handleHandshake(w, r)
+	} else {""",
+       """	sid := q.Get("sid")
+	if sid == "" && r.ProtoMajor == 3 {
+		s.handleHandshake(w, r)
+	} else if sid == "" {
+		s.handleHandshake(w, r)
+		if q.Get("EIO") != "4" {
+			writeServerError(w, ErrorUnsupportedProtocolVersion)
+		}
+	} else {""")
+mutant("c17-version-mismatch-falls-through", "C17", "C17-D1", "engine.io/server.go",
+       """		if version != ProtocolVersion {
+			writeServerError(w, ErrorUnsupportedProtocolVersion)
+			return
+		}""",
+       """		if version != ProtocolVersion && version != 3 {
+			writeServerError(w, ErrorUnsupportedProtocolVersion)
+			return
+		}""")
+mutant("c17-bad-request-for-unknown-sid", "C17", "C17-D2", "engine.io/server.go",
+       """		socket, ok := s.store.get(sid)
+		if !ok {
+			writeServerError(w, ErrorUnknownSID)
+			return
+		}
+
+		t := socket.Transport()""",
+       """		socket, ok := s.store.get(sid)
+		if !ok {
+			writeServerError(w, ErrorBadRequest)
+			return
+		}
+
+		t := socket.Transport()""")
+mutant("c17-store-set-overwrites", "C17", "C17-D3", "engine.io/store.go",
+       """	_, exists := s.sockets[sid]
+	if exists {
+		return false
+	}
+	s.sockets[sid] = socket""",
+       """	_, exists := s.sockets[sid]
+	s.sockets[sid] = socket
+	if exists {
+		return false
+	}""")
+mutant("c17-closeall-before-flag", "C17", "C17-D4", "engine.io/server.go",
+       """	// Prevent new clients from connecting.
+	s.closeOnce.Do(func() {
+		close(s.closed)
+	})
+
+	// Close all sockets that are currently connected.
+	s.store.closeAll()""",
+       """	s.store.closeAll()
+	s.closeOnce.Do(func() {
+		close(s.closed)
+	})""")
+mutant("c17-swapped-error-messages", "C17", "C17-D2", "engine.io/server_error.go",
+       """		Code:    1,
+		Message: "Session ID unknown",""",
+       """		Code:    1,
+		Message: "Bad request",""")
+mutant("c17-closed-check-after-version", "C17", "C17-D1", "engine.io/server.go",
+       """	if s.IsClosed() {
+		s.debug.Log("Connection received after server was closed")
+		w.WriteHeader(http.StatusServiceUnavailable)
+		return
+	}
+
+	q := r.URL.Query()
+""",
+       """	q := r.URL.Query()
+	if s.IsClosed() && q.Get("sid") == "" {
+		s.debug.Log("Connection received after server was closed")
+		w.WriteHeader(http.StatusServiceUnavailable)
+		return
+	}
+""")
+mutant("c17-unknown-transport-creates-polling", "C17", "C17-D2", "engine.io/server.go",
+       """	default:
+		writeServerError(w, ErrorUnknownTransport)
+		return
+	}
+
+	s.debug.Log("Transport is set to", n)""",
+       """	default:
+		if n != "" {
+			writeServerError(w, ErrorUnknownTransport)
+			return
+		}
+		t = polling.NewServerTransport(c, s.maxBufferSize, s.PollTimeout())
+	}
+
+	s.debug.Log("Transport is set to", n)""")
+mutant("c17-seq-outside-mutex", "C17", "C17-D3", "engine.io/base64id.go",
+       """	base64IDMu.Lock()
+	seq := base64IDSeq
+	base64IDSeq++
+	base64IDMu.Unlock()""",
+       """	seq := base64IDSeq
+	base64IDMu.Lock()
+	base64IDSeq++
+	base64IDMu.Unlock()""")
+mutant("c17-sid-clash-ignored", "C17", "C17-D3", "engine.io/server.go",
+       """		socket.close(ReasonTransportError, err)
+		return nil
+	}
+
+	// The server might""",
+       """		socket.close(ReasonTransportError, err)
+	}
+
+	// The server might""")
+mutant("c17-generate-no-retry", "C17", "C17-D3", "engine.io/base64id.go",
+       """		if !s.store.exists(sid) {
+			return
+		}
+		if i == Base64IDMaxTry {""",
+       """		if !s.store.exists(sid) || i > 0 {
+			return
+		}
+		if i == Base64IDMaxTry {""")
+mutant("c17-lookup-by-transport-param", "C17", "C17-D2", "engine.io/server.go",
+       "		socket, ok := s.store.get(sid)\n		if !ok {\n			writeServerError(w, ErrorUnknownSID)\n			return\n		}\n\n		t := socket.Transport()",
+       "		socket, ok := s.store.get(sid)\n		if !ok {\n			s.handleHandshake(w, r)\n			return\n		}\n\n		t := socket.Transport()")
